@@ -139,9 +139,30 @@ def exc_classes():
     return e
 
 
+DOCUMENTED_ERRORS = ("StoreObjectForPidAlreadyInProgress", "IdentifierNotLocked", "CidRefsContentError", "CidRefsFileNotFound",
+                     "OrphanPidRefsFileFound", "PidRefsContentError", "PidRefsFileNotFound", "PidRefsAlreadyExistsError",
+                     "PidRefsDoesNotExist", "PidNotFoundInCidRefsFile", "NonMatchingObjSize", "NonMatchingChecksum",
+                     "RefsFileExistsButCidObjMissing", "HashStoreRefsAlreadyExists", "UnsupportedAlgorithm",
+                     "ValueError", "TypeError", "FileNotFoundError", "FileExistsError", "PermissionError",
+                     "IsADirectoryError", "NotADirectoryError", "OSError", "AttributeError", "KeyError", "RuntimeError")
+
+
+def documented_name(err):
+    """The name under which a caller that catches the documented classes sees this exception: the nearest class in
+    its MRO that is one of them, for exception classes the hashstore package itself defines (a refinement such as
+    `class BadIdentifier(ValueError)` IS the documented class for every caller that catches it)."""
+    if type(err).__name__ in DOCUMENTED_ERRORS or not (type(err).__module__ or "").startswith("hashstore"):
+        # library exceptions keep their own name: a UnicodeDecodeError that escapes is not a deliberate ValueError
+        return type(err).__name__
+    for klass in type(err).__mro__:
+        if klass.__name__ in DOCUMENTED_ERRORS:
+            return klass.__name__
+    return type(err).__name__
+
+
 def classify_exception(err):
     """Coarse outcome classes (DESIGN.md 3.3)."""
-    n = type(err).__name__
+    n = documented_name(err)
     if n in ("HashStoreRefsAlreadyExists", "PidRefsAlreadyExistsError"):
         return "already_exists"
     if n in ("NonMatchingChecksum", "NonMatchingObjSize"):
@@ -181,7 +202,7 @@ class Outcome:
             self.msg = None
         else:
             self.cls = classify_exception(exc)
-            self.exc_name = type(exc).__name__
+            self.exc_name = documented_name(exc)
             self.msg = str(exc)[:300]
 
     def brief(self):
